@@ -199,7 +199,11 @@ def mat(v, built):
         if '$bytes' in v:
             return bytes.fromhex(v['$bytes'])
         if '$dtype' in v:
-            return getattr(np, v['$dtype']) if v.get('as') == 'type' else np.dtype(v['$dtype'])
+            if v.get('as') == 'type':
+                return getattr(np, v['$dtype'])
+            if v.get('as') in ('dtype>', 'dtype<', 'dtype='):      # a dtype INSTANCE that carries an explicit byte order
+                return np.dtype(v['$dtype']).newbyteorder(v['as'][-1])
+            return np.dtype(v['$dtype'])
         if '$obj' in v:
             return object()
         raise ValueError(f'unknown value spec {v}')
